@@ -2,7 +2,8 @@
    Part 1: symbolic time courses of nipy/modalities/fmri/utils.py.
    Part 2: term algebra and design of nipy/algorithms/statistics/formula/formulae.py. *)
 From Coq Require Import List Bool ZArith QArith Qround Lia Lqa Permutation.
-From NV.C10 Require Import Model Proofs1 Proofs2.
+From NV.Lib Require RingMat.
+From NV.C10 Require Import Model Proofs1 Proofs2 Proofs3.
 Import ListNotations.
 Open Scope Q_scope.
 
@@ -41,20 +42,32 @@ Theorem blocks_value : forall l lo x,
 Proof. exact blocks_value_sorted. Qed.
 Print Assumptions blocks_value.
 
-(* ... but NOT for disjoint blocks listed out of time order (finding): the
-   docstring of `blocks` states no ordering precondition, and block_design
-   passes the rows of the user's block_spec in the given order. *)
-Theorem blocks_unsorted_refuted :
-  exists (l : list block) (x : Q),
-    pairwise_disjoint l /\ block_lookup l x == 3 /\ blocks_pairs l x == 0.
-Proof.
-  exists [((5, 6), 3); ((1, 2), 4)], (11 # 2). split.
-  - cbn. split; [unfold Qle; cbn; lia|]. split.
-    + constructor; [|constructor]. right. unfold Qle; cbn; lia.
-    + split; [unfold Qle; cbn; lia|]. split; [constructor|exact I].
-  - split; vm_compute; reflexivity.
-Qed.
-Print Assumptions blocks_unsorted_refuted.
+(* blocks (since 4e8ac11 sorts the (interval, amplitude) pairs by interval, stably):
+   for pairwise disjoint intervals listed in ANY order - touching intervals
+   (off_i = on_j) and empty ones (on = off) included - the value at ANY x is the
+   amplitude of the block [on, off) containing x, else 0 ... *)
+Theorem blocks_value_any_order : forall l x,
+  pairwise_disjoint l -> blocks_sorted_pairs l x = block_lookup l x.
+Proof. exact blocks_any_order. Qed.
+Print Assumptions blocks_value_any_order.
+
+(* ... and that block is unique: whichever listed block contains x gives the value *)
+Theorem blocks_containing_block_unique : forall l x b,
+  pairwise_disjoint l -> In b l -> in_block x b = true ->
+  blocks_sorted_pairs l x = snd b.
+Proof. intros l x b P Hin Hb. rewrite (blocks_any_order l x P). now apply disjoint_unique. Qed.
+Print Assumptions blocks_containing_block_unique.
+
+(* Overlapping intervals (model as is): the +-inf sentinels are neutral, so the
+   value is the sequential overwrite over  on1, off1, on2, off2, ...  of the
+   blocks sorted by (on, off): by step_function_last_wins the LAST knot <= x in
+   that sequence decides (an `on` knot carries the amplitude, an `off` knot 0).
+   It is neither the sum nor "some containing block": a block nested in a longer
+   one switches the longer one off when it ends (example below). *)
+Theorem blocks_sentinels_neutral : forall l x,
+  blocks_sorted_pairs l x = step_eval 0 (blocks_tv (sort_blocks l)) x.
+Proof. intros. unfold blocks_sorted_pairs. apply blocks_sentinels. Qed.
+Print Assumptions blocks_sentinels_neutral.
 
 (* events: the value at x is the sum over ALL listed (onset, amplitude) pairs of
    g(amplitude) * f(x - onset), for any kernel f and amplitude function g *)
@@ -215,11 +228,52 @@ Proof.
 Qed.
 Print Assumptions factor_indicators_partition.
 
+(* Formula.__mul__ shortcut: a Factor times a formula with the same terms is the
+   Factor itself (NOT the squares f_l**2 and cross products f_l*f_k that the
+   general rule gives); in every other case the distinct pairwise products *)
+Theorem factor_self_product : forall a b,
+  (isfac a = true -> terms a = terms b -> fmul a b = a) /\
+  (isfac a = false \/ terms a <> terms b -> fmul a b = mkF false (fprod (terms a) (terms b))).
+Proof. intros a b. split; [apply fmul_shortcut|apply fmul_general]. Qed.
+Print Assumptions factor_self_product.
+
+Theorem factor_times_itself : forall n idx,
+  feval n (EMul (EAtoms true idx) (EAtoms true idx)) = feval n (EAtoms true idx).
+Proof. exact factor_self. Qed.
+Print Assumptions factor_times_itself.
+
+(* Contrast matrices on an EXACT pseudo-inverse, over any commutative ring:
+   if P is a left inverse of the design D (what pinv(D) is for a
+   full-column-rank D - oracle contract, a hypothesis here) and the contrast is
+   a sub-formula, i.e. its design consists of the columns sel of D, then
+   C = (P L)^T is the selector matrix: row j is the unit vector of column sel[j]. *)
+Theorem contrast_selects_columns :
+  forall (R : Type) (r0 r1 : R) (radd rmul rsub : R -> R -> R) (ropp : R -> R),
+  Ring_theory.ring_theory r0 r1 radd rmul rsub ropp (@eq R) ->
+  forall (P D : list (list R)) (p : nat) (sel : list nat),
+  RingMat.rows_len p D ->
+  RingMat.mm r0 radd rmul p P D = RingMat.mid r0 r1 p ->
+  Forall (fun s => (s < p)%nat) sel ->
+  map (fun s => RingMat.mv r0 radd rmul P (map (fun row => nth s row r0) D)) sel
+  = RingMat.sel_mat r0 r1 p sel.
+Proof. exact contrast_rows. Qed.
+Print Assumptions contrast_selects_columns.
+
 (* ================= non-vacuity ================= *)
 Open Scope Q_scope.
 (* docstring example of blocks: on_off = [[1,2],[3,4]], amplitudes [3,5] at 0.4,1.4,2.4,3.4 *)
 Example blocks_docstring_example :
   map (blocks_eval [(1, 2); (3, 4)] (Some [3; 5])) [2 # 5; 7 # 5; 12 # 5; 17 # 5] = [0; 3; 0; 5].
+Proof. vm_compute. reflexivity. Qed.
+
+(* unsorted docstring-style call, the former counterexample: now 3 at 5.5 and 4 at 1.5 *)
+Example blocks_unsorted_example :
+  map (blocks_eval [(5, 6); (1, 2)] (Some [3; 4])) [11 # 2; 3 # 2; 3; 6] = [3; 4; 0; 0].
+Proof. vm_compute. reflexivity. Qed.
+
+(* overlapping (nested) blocks: (1,10) amp 2 and (2,3) amp 5 -> 2 on [1,2), 5 on [2,3), 0 from 3 on *)
+Example blocks_overlapping_example :
+  map (blocks_eval [(2, 3); (1, 10)] (Some [5; 2])) [3 # 2; 5 # 2; 5; 11] = [2; 5; 0; 0].
 Proof. vm_compute. reflexivity. Qed.
 
 Example conv_example :
